@@ -32,6 +32,7 @@ structure MutShare where
   enabler : Bytes
   data : Bytes
   leases : List Lease
+  nodeid : Bytes := []        -- the nodeid recorded next to the write enabler in the container header
 deriving Repr, DecidableEq
 
 structure State where
@@ -39,6 +40,7 @@ structure State where
   up : List (Key × Upload) := []
   muts : List (Key × MutShare) := []
   advisories : Nat := 0
+  myNodeid : Bytes := []      -- `StorageServer.my_nodeid` of the serving node (fixed while it runs; see `migrate`)
 deriving Repr, DecidableEq
 
 /-- the decoded payload of a request (everything a handler reads besides the secrets) -/
@@ -198,12 +200,12 @@ truncated form; clients always send 32-byte enablers.) -/
 def pad32 (e : Bytes) : Bytes := (e ++ List.replicate (32 - e.length) 0).take 32
 
 /-- `_evaluate_write_vectors` for one share -/
-def applyTW (enabler : Bytes) (lease : Lease) (si : String) (ms : List (Key × MutShare)) (p : Nat × TWV) :
+def applyTW (enabler : Bytes) (lease : Lease) (si : String) (nodeid : Bytes) (ms : List (Key × MutShare)) (p : Nat × TWV) :
     List (Key × MutShare) :=
   let k : Key := (si, p.1)
   if p.2.newLength = some 0 then eraseK k ms
   else
-    let cur : MutShare := (lookupK k ms).getD ⟨pad32 enabler, [], []⟩
+    let cur : MutShare := (lookupK k ms).getD ⟨pad32 enabler, [], [], nodeid⟩   -- header: my_nodeid + enabler
     setK k { cur with data := mutWritev cur.data p.2.writes p.2.newLength, leases := addOrRenew cur.leases lease } ms
 
 /-- `_collect_mutable_shares_for_storage_index`: some existing share of the slot has another write enabler -/
@@ -219,8 +221,14 @@ def ssRtw (st : State) (si : String) (enabler : Bytes) (lease : Lease) (a : RtwA
     let shares := slotShares st si
     let good := testsPass shares a.tw
     let reads := readAll shares a.rv
-    let st' := if good then { st with muts := a.tw.foldl (applyTW enabler lease si) st.muts } else st
+    let st' := if good then { st with muts := a.tw.foldl (applyTW enabler lease si st.myNodeid) st.muts } else st
     some (st', ⟨good, reads⟩)
+
+/-- The share directory is served by another node: copied to a server with another nodeid, or the node's identity
+was regenerated in place.  Uploads in progress do not survive (`StorageServer.__init__` empties `incoming/`, the
+`BucketWriter`s and the HTTP layer's upload table lived in the old process); finished shares, mutable shares with
+their recorded write enabler *and recorded nodeid*, and advisories are what is on disk. -/
+def migrate (st : State) (nodeid : Bytes) : State := { st with up := [], myNodeid := nodeid }
 
 def hRtw (st : State) (sec : SecretsDict) (si : String) (a : RtwArgs) : State × Response :=
   match ssRtw st si (getS sec .writeEnabler) (getS sec .leaseRenew, getS sec .leaseCancel) a with
